@@ -146,13 +146,6 @@ def hook_packages(
     # ....................{ HOOKS                          }....................
     # With a submodule-specific thread-safe reentrant lock...
     with claw_lock:
-        # ....................{ BLACKLIST                  }....................
-        # If blacklisting one or more packages from type-checking, do so.
-        # print(f'Blacklisting packages: {repr(conf.claw_skip_package_names)}')
-        if conf.claw_skip_package_names:
-            _blacklist_packages(conf.claw_skip_package_names)
-        # Else, *NO* packages are being blacklisted from type-checking. Fine!
-
         # ....................{ WHITELIST ~ beartype_all   }....................
         # If type-checking *ALL* packages, do so.
         if claw_coverage is BeartypeClawCoverage.PACKAGES_ALL:
@@ -161,6 +154,17 @@ def hook_packages(
         # Else, only a subset of packages are being type-checked. Do it! Do it!
         else:
             _whitelist_packages_some(package_names=package_names, conf=conf)  # type: ignore[arg-type]
+
+        # ....................{ BLACKLIST                  }....................
+        # If blacklisting one or more packages from type-checking, do so.
+        #
+        # Note that this is intentionally done *AFTER* whitelisting above, which
+        # raises an exception on detecting a conflicting configuration: a call
+        # raising that exception then leaves the blacklist unmodified as well.
+        # print(f'Blacklisting packages: {repr(conf.claw_skip_package_names)}')
+        if conf.claw_skip_package_names:
+            _blacklist_packages(conf.claw_skip_package_names)
+        # Else, *NO* packages are being blacklisted from type-checking. Fine!
 
         # ....................{ path hook                  }....................
         # Lastly, if our beartype import path hook singleton has *NOT* already
@@ -378,6 +382,32 @@ def _whitelist_packages_some(
 
     # Avoid circular import dependencies.
     from beartype.claw._clawstate import claw_state
+
+    # For the fully-qualified name of each package to be whitelisted, raise an
+    # exception if that package has already been whitelisted under a conflicting
+    # configuration *BEFORE* whitelisting any package below. Doing so guarantees
+    # this function to be atomic: either all or none of these packages are
+    # whitelisted, regardless of the order in which these packages are listed.
+    for package_name in package_names:  # type: ignore[union-attr]
+        subpackages_trie_whitelist_old = claw_state.packages_trie_whitelist
+        for package_basename in package_name.split('.'):
+            subpackages_trie_whitelist_old = (
+                subpackages_trie_whitelist_old.get(package_basename))  # type: ignore[assignment]
+            if subpackages_trie_whitelist_old is None:
+                break
+        else:
+            conf_old = subpackages_trie_whitelist_old.conf_if_hooked
+            if conf_old is not None and conf_old != conf:
+                raise BeartypeClawHookException(
+                    f'Beartype import hook '
+                    f'(e.g., beartype.claw.beartype_*() function) '
+                    f'previously passed conflicting beartype configuration for '
+                    f'package "{package_name}":\n'
+                    f'\t----------( OLD "conf" PARAMETER )----------\n'
+                    f'\t{repr(conf_old)}\n'
+                    f'\t----------( NEW "conf" PARAMETER )----------\n'
+                    f'\t{repr(conf)}\n'
+                )
 
     # For the fully-qualified name of each package to be whitelisted...
     for package_name in package_names:  # type: ignore[union-attr]
